@@ -669,6 +669,21 @@ func judgeGB(c *core.Ctx, j *gbJob, r result) error {
 	if early {
 		c.Add("runs_with_early_release", 1)
 	}
+	// Self-test of the binding (C10_CORRUPT=spec|real): one predicted value /
+	// one observed value of one fixed run is corrupted; the former must show
+	// up as DRIFT, the latter as a VIOLATION.
+	corruptSpec := false
+	if j.Task.ID == 11 {
+		switch os.Getenv("C10_CORRUPT") {
+		case "spec":
+			corruptSpec = true
+		case "real":
+			if len(flat) > 0 && len(flat[0].IDs) > 0 {
+				flat[0].IDs = flat[0].IDs[1:]
+				flat[0].Aggs["ids"] = "[" + strings.Trim(strings.ReplaceAll(idsKey(flat[0].IDs), " ", ","), "[]") + "]"
+			}
+		}
+	}
 	v := oracle(j.Rows, flat, aggs)
 
 	// --- binding: does some behaviour of the spec explain the real run?
@@ -683,7 +698,11 @@ func judgeGB(c *core.Ctx, j *gbJob, r result) error {
 		}
 	} else {
 		for _, p := range j.Case.preds {
-			if p.Crash || specBatchSig(p.Out) != realBatchSig(realB) {
+			want := specBatchSig(p.Out)
+			if corruptSpec {
+				want += "#"
+			}
+			if p.Crash || want != realBatchSig(realB) {
 				continue
 			}
 			ok := true
